@@ -243,9 +243,14 @@ def mean(t, dim=None, marginals=None, keepdim=False):
     """
 
     if marginals is not None:
-        pdfcores = [torch.ones(sh) / sh for sh in t.shape]
+        pdfcores = [
+            torch.ones(1, sh, 1, dtype=t.cores[0].dtype, device=t.cores[0].device)
+            for sh in t.shape
+        ]
         if dim is None:
             dim = range(t.dim())
+        if not hasattr(dim, "__len__"):
+            dim = [dim]
         for d, marg in zip(dim, marginals):
             pdfcores[d] = marg[None, :, None] / marg.sum()
         pdf = tn.Tensor(pdfcores)
